@@ -1,12 +1,14 @@
 import PraatModel.Klatt
 import PraatModel.Lemmas.Strip
 import PraatModel.Lemmas.KlattStr
+import PraatModel.Props.C19Clean
 
 /-! # C19 — the short ("praatio-written") point-object file round-trips: `read (write po) = po`
 
 `PO.text` is `PointObject.save`; `open1D` / `open2D` are `open1DPointObject` / `open2DPointObject`.
-Numerals are opaque strings: a numeral is any string `float()` accepts, `strip()` leaves alone, that
-stays on one line and has no letter `x` (the format sniff looks for `"xmin"` in the first 100 characters).
+Numerals are opaque strings: a numeral (`Lit`, `Props/C19Clean.lean`) is any string `float()` accepts and
+`strip()` leaves alone.  That such a string stays on one line and has no letter `x` (the format sniff looks for
+`"xmin"` in the first 100 characters) is a consequence (`fclass_chars`), not a hypothesis.
 -/
 
 namespace C19
@@ -16,12 +18,35 @@ open Klatt
 line, without the letter x -/
 def PNumeral (n : Txt) : Prop := stripList n = n ∧ (fclass n).isSome ∧ '\n' ∉ n ∧ 'x' ∉ n
 
+/-- every numeral is one: the two character conditions follow from `float()` accepting the string -/
+theorem PNumeral.of_lit {n : Txt} (h : Lit n) : PNumeral n :=
+  ⟨h.1, h.2, h.not_mem '\n' (by decide), h.not_mem 'x' (by decide)⟩
+
+theorem pnumeral_iff (n : Txt) : PNumeral n ↔ Lit n := ⟨fun h => ⟨h.1, h.2.1⟩, PNumeral.of_lit⟩
+
+/-- a PointProcess at the numeral level: the class name, and every number any string `float()` accepts and
+`strip()` leaves alone (one number per row) -/
 def PO.Ok1 (p : PO) : Prop :=
+  p.cls = t "PointProcess" ∧ Lit p.xmin ∧ Lit p.xmax ∧ ∀ r ∈ p.rows, ∃ v, r = [v] ∧ Lit v
+
+/-- a PitchTier / DurationTier at the numeral level (two numbers per row) -/
+def PO.Ok2 (p : PO) : Prop :=
+  (p.cls = t "PitchTier" ∨ p.cls = t "DurationTier") ∧ Lit p.xmin ∧ Lit p.xmax ∧
+  ∀ r ∈ p.rows, ∃ a b, r = [a, b] ∧ Lit a ∧ Lit b
+
+/-- the same with the character conditions spelled out (what the proofs use) -/
+def PO.Ok1x (p : PO) : Prop :=
   p.cls = t "PointProcess" ∧ PNumeral p.xmin ∧ PNumeral p.xmax ∧ ∀ r ∈ p.rows, ∃ v, r = [v] ∧ PNumeral v
 
-def PO.Ok2 (p : PO) : Prop :=
+def PO.Ok2x (p : PO) : Prop :=
   (p.cls = t "PitchTier" ∨ p.cls = t "DurationTier") ∧ PNumeral p.xmin ∧ PNumeral p.xmax ∧
   ∀ r ∈ p.rows, ∃ a b, r = [a, b] ∧ PNumeral a ∧ PNumeral b
+
+theorem PO.Ok1.x {p : PO} (h : PO.Ok1 p) : PO.Ok1x p :=
+  ⟨h.1, .of_lit h.2.1, .of_lit h.2.2.1, fun r hr => let ⟨v, e, hv⟩ := h.2.2.2 r hr; ⟨v, e, .of_lit hv⟩⟩
+
+theorem PO.Ok2.x {p : PO} (h : PO.Ok2 p) : PO.Ok2x p :=
+  ⟨h.1, .of_lit h.2.1, .of_lit h.2.2.1, fun r hr => let ⟨a, b, e, ha, hb⟩ := h.2.2.2 r hr; ⟨a, b, e, .of_lit ha, .of_lit hb⟩⟩
 
 end C19
 
@@ -305,7 +330,7 @@ open C19.Short
 /-- **1-D round trip**: reading the text `PointObject.save` writes for a PointProcess returns the object —
 class, span and every time point, numeral for numeral — for any number of points. -/
 theorem pointobj_roundtrip_1d (p : PO) (h : PO.Ok1 p) : open1D p.text = .ok p := by
-  obtain ⟨hc, hmin, hmax, hr⟩ := h
+  obtain ⟨hc, hmin, hmax, hr⟩ := h.x
   have hcls : ClsOk p.cls := Or.inl hc
   obtain ⟨hrows, hflat⟩ := rows_1d p.rows hr
   unfold open1D
@@ -324,7 +349,7 @@ theorem pointobj_roundtrip_1d (p : PO) (h : PO.Ok1 p) : open1D p.text = .ok p :=
 
 /-- **2-D round trip**: the same for a PitchTier / DurationTier with `(time, value)` rows. -/
 theorem pointobj_roundtrip_2d (p : PO) (h : PO.Ok2 p) : open2D p.text = .ok p := by
-  obtain ⟨hc, hmin, hmax, hr⟩ := h
+  obtain ⟨hc, hmin, hmax, hr⟩ := h.x
   have hcls : ClsOk p.cls := Or.inr hc
   have hflat := rows_2d p.rows hr
   unfold open2D
@@ -369,9 +394,9 @@ def Short.okIs (r : R PO) (q : PO) : Bool := match r with | .ok q' => q' == q | 
 
 set_option exponentiation.threshold 2000 in
 theorem Short.pnumeral_examples :
-    PNumeral (t "0") ∧ PNumeral (t "2.0") ∧ PNumeral (t "0.5") ∧ PNumeral (t "120.0") ∧ PNumeral (t "1e-05") ∧
-    PNumeral (t "-inf") := by
-  refine ⟨?_, ?_, ?_, ?_, ?_, ?_⟩ <;> exact ⟨by decide, by decide, by decide, by decide⟩
+    Lit (t "0") ∧ Lit (t "2.0") ∧ Lit (t "0.5") ∧ Lit (t "120.0") ∧ Lit (t "1e-05") ∧
+    Lit (t "-inf") := by
+  refine ⟨?_, ?_, ?_, ?_, ?_, ?_⟩ <;> exact ⟨by decide, by decide⟩
 
 example : PO.Ok2 ⟨t "PitchTier", t "0", t "2.0", [[t "0.5", t "120.0"], [t "1e-05", t "-inf"]]⟩ := by
   obtain ⟨h0, h2, h05, h120, he, hinf⟩ := pnumeral_examples
